@@ -32,6 +32,13 @@ for cx in [(2, 2), (1, 2)]:
     y = da.from_array(b, chunks=(1, 2))
     r = da.blockwise(np.add, "ij", x, "ij", y, "ij", dtype=float)
     check(f"broadcast {cx}", r, a + b, [(slice(1, 3),), (2,), (slice(0, 1),), (slice(2, None),), (slice(None), 1), (slice(0, 0),)])
+    try:  # shuffle pushdown (repaired in 7727327)
+        if not np.allclose(da.take(r, [2, 0, 1, 2], axis=0).compute(), (a + b)[[2, 0, 1, 2]]):
+            bad += 1
+            print("broadcast take", cx, "differs")
+    except Exception as e:  # noqa: BLE001
+        bad += 1
+        print("broadcast take", cx, type(e).__name__, str(e)[:80])
     f = lambda p, q: np.repeat(p + q, 2, axis=0)  # noqa: E731
     r = da.blockwise(f, "ij", x, "ij", y, "ij", dtype=float, adjust_chunks={"i": lambda n: 2 * n})
     check(f"broadcast coarse {cx}", r, np.repeat(a + b, 2, axis=0), [(slice(2, 5),), (3,), (slice(0, 2),), (slice(None), slice(1, 3))])
